@@ -205,6 +205,7 @@ TOWERS = {
     "case-stmt": lambda d: comb("case a { 0: " * d + "a = 1;" + " }" * d),
     "block-stmt": lambda d: comb("block { " * d + "a = 1;" + " }" * d),
     "module-group": lambda d: mod("{ " * d + "var a: logic;" + " }" * d),
+    "attr-group": lambda d: mod("#[ifdef(X)] { " * d + "var a: logic;" + " }" * d),
     "gen-if": lambda d: mod("if 1 :g { " * d + " }" * d),
     "gen-for": lambda d: mod("for i in 0..1 :g { " * d + " }" * d),
     "gen-block": lambda d: mod(":g { " * d + " }" * d),
@@ -269,17 +270,18 @@ def write_input(d, name, text):
     return p
 
 
-def judge(ctx, out_dir, stats_prefix):
+def judge(ctx, out_dir, stats_prefix, max_report=5):
     """results.txt: every (input, stack) must be Ok or an error value with an in-range span."""
     rows = read_lines(f"{out_dir}/results.txt") or []
     hist = ctx.cov.setdefault("distribution", {})
-    bad_seen = set()
+    bad_by_path = collections.OrderedDict()     # path -> (label, mib, text) of the most telling bad row
+    recycled = False
     for row in rows:
         label, rest = row.split(" ", 1)
         path, mib, res = rest.rsplit(" ", 2)
         if label.startswith("selftest:"):
             # deliberate abort / stack overflow in the child: the isolation must report it as a crash
-            if mib == "8":
+            if res != "not-run" and f"selftest.{label.split(':')[1]}" not in hist:
                 hist[f"selftest.{label.split(':')[1]}"] = res
                 if not res.startswith("crash:"):
                     ctx.violation(f"crash detection self-test `{label}` was not reported as a crash (got {res}): "
@@ -289,7 +291,15 @@ def judge(ctx, out_dir, stats_prefix):
         ctx.cov["evaluations"] += 1
         cls = res.split(":")[0]
         hist[f"{stats_prefix}.{cls}"] = hist.get(f"{stats_prefix}.{cls}", 0) + 1
+        hist[f"{stats_prefix}.stack{mib}MiB.{cls}"] = hist.get(f"{stats_prefix}.stack{mib}MiB.{cls}", 0) + 1
         bad = None
+        if cls == "stack-recycled":
+            # the thread did not get the stack size it asked for (glibc stack cache): the run proves nothing
+            if not recycled:
+                recycled = True
+                ctx.violation(f"stack-size control failed for `{label}` ({mib} MiB requested, got {res}): thread stacks are being recycled",
+                              {"kind": "check-machinery", "label": label, "result": res}, no_input=True, kind="model!=impl")
+            continue
         if cls == "ok" or cls in ("parol", "lexer", "user"):
             pass
         elif cls == "syntax":
@@ -300,20 +310,28 @@ def judge(ctx, out_dir, stats_prefix):
         else:
             bad = f"parser did not return a value: {res}"
         ctx.distinct((label, res if cls != "syntax" else "syntax", mib))
-        if bad and path not in bad_seen:
-            bad_seen.add(path)
-            try:
-                with open(path, encoding="utf-8", newline="") as fh:
-                    body = fh.read()
-            except Exception:
-                body = f"(input file {path})"
-            key = None
-            if label.startswith("tower:") or label.startswith("pump:"):
-                # tower:<construct>:<depth>
-                _, construct, depth = label.split(":")
-                key = f"parser:{construct}:depth{depth}"
-            ctx.violation(f"C10 violated on input `{label}` with a {mib} MiB stack: {bad} "
-                          f"(replay: {HX} parse --one <replay file> --stack {mib})", body, key=key, kind="impl!=oracle")
+        if bad:
+            # `not-run` = a stage that never started because an earlier stage of the same input killed the child
+            if path not in bad_by_path or (bad_by_path[path][3] == "not-run" and res != "not-run"):
+                bad_by_path[path] = (label, mib, bad, res)
+    hist[f"{stats_prefix}.failing_inputs"] = len(bad_by_path)
+    for k, (path, (label, mib, bad, res)) in enumerate(bad_by_path.items()):
+        if k >= max_report:
+            ctx.notes.append(f"{len(bad_by_path) - max_report} more failing inputs in {stats_prefix} not reported individually "
+                             f"(see {out_dir}/results.txt)")
+            break
+        try:
+            with open(path, encoding="utf-8", newline="") as fh:
+                body = fh.read()
+        except Exception:
+            body = f"(input file {path})"
+        key = None
+        if label.startswith("tower:"):
+            _, construct, depth = label.split(":")     # tower:<construct>:<depth>
+            key = f"parser:{construct}:depth{depth}"
+        what = "Rust's default 2 MiB thread stack" if mib == "2" else f"a {mib} MiB stack"
+        ctx.violation(f"C10 violated on input `{label}` with {what}: {bad} "
+                      f"(replay: {HX} parse --one <replay file> --stack {mib})", body, key=key, kind="impl!=oracle")
     return rows
 
 
@@ -438,6 +456,69 @@ def field(reply, name):
     return None
 
 
+STACK_BUDGET = 2 * 1024 * 1024     # Rust's default stack of a spawned thread
+SAFETY = 1.5                       # required head-room factor (debug build frames; measured, see evidence)
+
+
+def stack_budget(ctx, d2, boundary, cap):
+    """Obligation tying the depth cap to a stack budget: for every recursive construct the stack needed by
+    parse + clone + drop at the deepest nesting the cap admits (measured high-water mark), and cap x (worst
+    per-depth-unit cost), must fit the 2 MiB default thread stack with the safety factor."""
+    meas = {}
+    for row in read_lines(f"{d2}/measure.txt") or []:
+        label, rest = row.split(" ", 1)
+        path, cls, a, b, c = rest.rsplit(" ", 4)
+        meas[label] = (cls, int(a), int(b), int(c))
+    table, worst_need, worst_unit = {}, (0, None), (0.0, None)
+    broken = []
+    for name, (q, c0, dstar) in sorted(boundary.items()):
+        hi, lo = meas.get(f"tower:{name}:{dstar}"), meas.get(f"tower:{name}:{dstar // 2}")
+        if not hi or not lo:
+            continue
+        if hi[0] != "ok" or lo[0] != "ok":
+            # the measuring thread (96 MiB) died or the tower was refused: cannot bound the need
+            if hi[0].startswith("crash") or hi[0] in ("timeout", "panic"):
+                broken.append(f"{name}: measurement at nesting {dstar} ended with `{hi[0]}` (needs more than 96 MiB?)")
+            continue
+        need = max(hi[1:])
+        per_level = (max(hi[1:]) - max(lo[1:])) / max(1, dstar - dstar // 2)
+        per_unit = per_level / q
+        table[name] = {"nesting_at_cap": dstar, "depth_units_per_level": q, "stack_bytes(parse,clone,drop)": list(hi[1:]),
+                       "bytes_per_level": round(per_level, 1), "bytes_per_depth_unit": round(per_unit, 1)}
+        if need > worst_need[0]:
+            worst_need = (need, name)
+        if per_unit > worst_unit[0]:
+            worst_unit = (per_unit, name)
+    ctx.cov["obligations"] += 1
+    proj = cap * worst_unit[0]
+    info = {"cap(regenerated Gen.maxParsingDepth)": cap, "stack_budget_bytes": STACK_BUDGET, "safety_factor": SAFETY,
+            "constructs_measured": len(table),
+            "worst_need_at_cap_bytes": worst_need[0], "worst_need_construct": worst_need[1],
+            "c_max_bytes_per_depth_unit": round(worst_unit[0], 1), "c_max_construct": worst_unit[1],
+            "cap_x_c_max_bytes": round(proj), "required": "max(worst_need, cap*c_max) * safety <= stack_budget",
+            "margin(stack_budget / max(worst_need, cap*c_max))": round(STACK_BUDGET / max(1, worst_need[0], proj), 2),
+            "per_construct": table}
+    ctx.cov["stack_budget"] = info
+    if not table:
+        broken.append("no construct could be measured")
+    if max(worst_need[0], proj) * SAFETY > STACK_BUDGET:
+        broken.append(f"cap {cap}: worst construct `{worst_need[1]}` needs {worst_need[0]} bytes of stack at the deepest admitted nesting, "
+                      f"cap x c_max = {cap} x {worst_unit[0]:.0f} (`{worst_unit[1]}`) = {proj:.0f} bytes; with safety factor {SAFETY} this "
+                      f"exceeds the {STACK_BUDGET}-byte default thread stack")
+    if not broken:
+        ctx.cov["discharged"] += 1
+        return
+    # an actual overflow under 2 MiB is reported by judge() with the tower as replay; otherwise: broken obligation
+    reproduced = any(not ni for _, _, ni in ctx.violations)
+    if not reproduced:
+        ctx.violation("stack-budget obligation broken (depth cap vs 2 MiB default thread stack): " + "; ".join(broken),
+                      {"kind": "proof-broken", "what": "cap * per-level stack cost * safety <= 2 MiB", "detail": broken, "numbers":
+                       {k: v for k, v in info.items() if k != "per_construct"}},
+                      no_input=True, kind="proof-broken")
+    else:
+        ctx.notes.append("stack-budget obligation broken as well: " + "; ".join(broken))
+
+
 def run(ctx):
     ctx.cov["generated"] = gen.gen(["Grammar"])
     ok = lean_check(ctx, "VerylModel.Props.C10", THEOREMS)
@@ -454,7 +535,9 @@ def run(ctx):
                        "deletion, duplication, bracket swap, random bytes, token soup, CRLF/CR); random derivations of the generated "
                        "grammar; nesting towers for every hand-listed construct and every recursive non-terminal of the grammar "
                        "(pumped shortest cycle) at the exact depth-cap boundary and at 1000…1300, 5000, 20000; flat runs of 1e5–1e6 "
-                       "tokens. Each parsed and dropped with 8 MiB and 16 MiB stacks in child processes. "
+                       "tokens. Each parsed and dropped with 8 MiB and 16 MiB stacks in child processes; every tower also with the 2 MiB default "
+                       "thread stack, and the stack high-water mark of parse+clone+drop at the cap boundary is measured (obligation "
+                       "cap*c_max*safety <= 2 MiB). "
                        "distinct = distinct (request, reply) pairs of the correspondence + distinct (label, outcome, stack)")
     if not harness_build(ctx):
         return
@@ -525,13 +608,15 @@ def run(ctx):
             boundary[name] = (q, c0, dstar)
             # no trace pass here: at `Trace` level the generated semantic actions Debug-format the whole
             # item stack per action, which takes minutes on a 1152-deep stack
+            # `2`: also with Rust's default 2 MiB thread stack; `M`: stack high-water mark (budget obligation)
             for d in (dstar - 1, dstar, dstar + 1):
-                entries.append(("-", f"tower:{name}:{d}", write_input(inp, f"tower-{name}-{d}", make(d))))
-            for d in ((dstar // 2, dstar - 7) if thorough else ()):
-                if d > 0:
-                    entries.append(("-", f"tower:{name}:{d}", write_input(inp, f"tower-{name}-{d}", make(d))))
+                entries.append(("2M" if d == dstar else "2", f"tower:{name}:{d}", write_input(inp, f"tower-{name}-{d}", make(d))))
+            if dstar // 2 > 0:
+                entries.append(("2M", f"tower:{name}:{dstar // 2}", write_input(inp, f"tower-{name}-{dstar // 2}", make(dstar // 2))))
+            if thorough and dstar - 7 > 0:
+                entries.append(("2", f"tower:{name}:{dstar - 7}", write_input(inp, f"tower-{name}-{dstar - 7}", make(dstar - 7))))
         for d in depths:
-            entries.append(("-", f"tower:{name}:{d}", write_input(inp, f"tower-{name}-{d}", make(d))))
+            entries.append(("2", f"tower:{name}:{d}", write_input(inp, f"tower-{name}-{d}", make(d))))
 
     for name, f in TOWERS.items():
         add_towers(name, f)
@@ -577,6 +662,8 @@ def run(ctx):
                 exp = {"ok": "accepted"}.get(real, real)
                 if real.startswith("parol:MaxParsingDepthExceeded:"):
                     exp = f"depth-exceeded:{int(real.rsplit(':', 1)[1]):x}"
+                if "crash" in real or "not-run" in real or "timeout" in real:
+                    continue        # already reported by judge() with the tower as replay
                 q_ops.append("ll [" + ",".join(A + O * d + C + Z * d + S) + "]")
                 q_exp.append(exp)
                 q_lab.append(f"tower:{name}:{d}")
@@ -601,6 +688,8 @@ def run(ctx):
                                   {"kind": "model!=impl", "label": lab, "real": exp, "model": m},
                                   no_input=True, kind="model!=impl")
         ctx.cov["distribution"]["towers.boundary_cross_checked"] = len(got)
+    if d2:
+        stack_budget(ctx, d2, boundary, cap)
     if not ok:
         if not any(not ni for _, _, ni in ctx.violations):
             proof_broken(ctx, "VerylModel.Props.C10 (or the regenerated grammar certificate) no longer checks")
